@@ -409,7 +409,8 @@ def fam_cherry_pick(g):
         yield g.git("cherry-pick", "src~%d" % rng.randint(0, n - 1), rewrite=True)
     g.ex.gen_state["aborted"] = False
     yield from resolve_loop(g, ["cherry-pick", "--continue"], ["cherry-pick", "--abort"],
-                            must_abort=(after_abort or (ranged and g.gated("pick_conflict_multi_commit_notes"))))
+                            must_abort=(after_abort or (ranged and (g.gated("pick_conflict_multi_commit_notes") or
+                                                                    g.gated("rebase_conflict_multi_commit")))))
     if g.ex.gen_state.get("aborted") and not g.in_progress() and (after_abort or rng.random() < 0.8):
         # after giving up, the person picks something else (or the same commit again) and sees it through
         g.ex.probe("cherry_pick.again_after_abort")
